@@ -9,23 +9,113 @@ use serde_json::{json, Map, Value};
 
 pub struct C09;
 
+// ------------------------------------------------------------------------------------------
+// free-running pass: a handler inside a NON-YIELDING section when its connection ends. On the
+// single thread of the simulation such a section can never be "in progress" while the connection
+// task runs, so this one behaviour is sampled on a real multi-thread runtime, real sockets and
+// real time. Sound by margin: the handler blocks 4 s, the loss must be reported within 2.5 s.
+// ------------------------------------------------------------------------------------------
+
+fn free_running(unit: &Value, out: &mut UnitResult) {
+    use anemo::types::PeerEvent;
+    use anemo::{Network, Request, Response};
+    use bytes::Bytes;
+    use std::time::{Duration, Instant};
+    let how = unit["how"].as_str().unwrap().to_string();
+    out.evaluations += 1;
+    let rt = tokio::runtime::Builder::new_multi_thread().worker_threads(3).enable_all().build().unwrap();
+    let how2 = how.clone();
+    let verdict: Result<String, (String, String)> = rt.block_on(async move {
+        let how = how2;
+        let mk = |key: u8, blocking: bool| {
+            let svc = tower::service_fn(move |req: Request<Bytes>| async move {
+                if blocking && req.route() == "/busy" {
+                    // CPU-bound / blocking work that does not reach an await point
+                    tokio::task::block_in_place(|| std::thread::sleep(Duration::from_secs(4)));
+                }
+                Ok::<_, std::convert::Infallible>(Response::new(Bytes::new()))
+            });
+            let mut c = anemo::Config::default();
+            let mut q = anemo::QuicConfig::default();
+            q.max_idle_timeout_ms = Some(1_500);
+            q.keep_alive_interval_ms = Some(400);
+            c.quic = Some(q);
+            Network::bind("127.0.0.1:0").private_key([key; 32]).server_name("free").config(c).start(svc).map_err(|e| ("setup".to_string(), e.to_string()))
+        };
+        let a = mk(41, false)?;
+        let b = mk(42, true)?;
+        let (mut eb, _) = b.subscribe().map_err(|e| ("setup".to_string(), e.to_string()))?;
+        a.connect(b.local_addr()).await.map_err(|e| ("setup".to_string(), format!("connect: {e}")))?;
+        let (a2, bid) = (a.clone(), b.peer_id());
+        tokio::spawn(async move {
+            let _ = a2.rpc(bid, Request::new(Bytes::new()).with_route("/busy")).await;
+        });
+        tokio::time::sleep(Duration::from_millis(300)).await;
+        // the connection ends while B's handler is inside its blocking section
+        let t0 = Instant::now();
+        match how.as_str() {
+            "disconnect" => {
+                let _ = a.disconnect(bid);
+            }
+            _ => {
+                let _ = a.shutdown().await;
+            }
+        }
+        let deadline = Duration::from_millis(2_500);
+        let mut lost_after = None;
+        while t0.elapsed() < deadline {
+            match tokio::time::timeout(Duration::from_millis(50), eb.recv()).await {
+                Ok(Ok(PeerEvent::LostPeer(p, _))) if p == a.peer_id() => {
+                    lost_after = Some(t0.elapsed());
+                    break;
+                }
+                _ => {}
+            }
+        }
+        let still_listed = b.peers().contains(&a.peer_id());
+        match lost_after {
+            Some(_) if !still_listed => Ok(format!("free-running {how} loss-reported-in-time")),
+            _ => Err(("loss-not-reported".to_string(), format!("[free-running, multi-thread runtime] B's handler was inside a blocking section (4 s) when A ended the connection ({how}); {} ms later B has {} reported LostPeer(A) and {} A (idle timeout 1.5 s)", t0.elapsed().as_millis(), if lost_after.is_some() { "" } else { "not" }, if still_listed { "still lists" } else { "no longer lists" }))),
+        }
+    });
+    drop(rt);
+    match verdict {
+        Ok(c) => out.class(c),
+        Err((k, m)) if k == "setup" => out.machinery_errors.push(format!("free-running unit: {m}")),
+        Err((k, m)) => out.violation(k, m, json!({"unit": unit})),
+    }
+    out.count("free_running_trials", 1);
+}
+
 impl Check for C09 {
     fn meta(&self, _tier: Tier) -> CheckMeta {
         CheckMeta {
             property: "C09",
             level: "fault_enumeration",
             rule: "every history over 3 real networks of {dial i->j, disconnect i-/->j, black-hole a link both ways for 1 s or idle timeout + 1 s, black-hole one direction for idle timeout + 1 s, shut down and restart a node with the same key} up to the depth (idle timeout 3 s, keep-alive 1 s); after every step and idle timeout + 1 s without faults: i lists j iff j lists i, and an RPC to every listed peer succeeds; disconnect is immediate with LostPeer(Requested) queued before it returns; distinct = distinct (op outcomes, final listing sizes)".into(),
-            assumptions: vec!["quinn's idle timer and keep-alives behave as configured (executed, trusted)".into(), "three nodes".into()],
+            assumptions: vec!["quinn's idle timer and keep-alives behave as configured (executed, trusted)".into(), "three nodes".into(), "a supplementary FREE-RUNNING pass (2 scenarios on a multi-thread runtime in real time: a handler inside a 4 s blocking section when its connection ends must not delay the report of the loss beyond 2.5 s) samples the one behaviour the single-thread simulation cannot host; counted under free_running_trials, not part of the exhaustive claim".into()],
             exhaustive: true,
         }
     }
     fn units(&self, tier: Tier) -> Vec<Value> {
-        histories::units(tier, "C09")
+        let mut u = histories::units(tier, "C09");
+        for how in ["disconnect", "shutdown"] {
+            u.insert(0, json!({"kind":"free-running","how":how}));
+        }
+        u
     }
     fn run_unit(&self, tier: Tier, unit: &Value, out: &mut UnitResult) {
+        if unit["kind"] == "free-running" {
+            return free_running(unit, out);
+        }
         histories::run_unit(tier, unit, out, "C09")
     }
     fn replay(&self, replay: &Value) -> String {
+        if replay["unit"]["kind"] == "free-running" {
+            let mut out = UnitResult::default();
+            free_running(&replay["unit"], &mut out);
+            return format!("free-running unit re-run (timing is not reproducible): {:?} {:?}", out.classes, out.violations.iter().map(|v| &v.message).collect::<Vec<_>>());
+        }
         histories::replay(replay, "C09")
     }
     fn finish(&self, _tier: Tier, total: &mut UnitResult) -> Map<String, Value> {
